@@ -90,6 +90,10 @@ type Record struct {
 	IsHTTP     bool
 	ForValue   bool
 	ResType    res.ResourceType
+	// Drift, when set, marks an extra record (ForValue is set too, so that it does not count
+	// as an invocation): what the request object reported when the handler was done differs
+	// from what it reported when the handler began.
+	Drift string
 }
 
 // Obs is what was observed for one request.
@@ -207,11 +211,26 @@ func Build(c *Case, rs *runState) *res.Service {
 			if qi, ok := rs.lookupQuery(r.Query()); ok {
 				i = qi
 			}
-			rs.record(i, snapshot(m, r))
+			first := snapshot(m, r)
+			rs.record(i, first)
 			if i < 0 || i >= len(c.Reqs) {
 				r.NotFound()
 				return
 			}
+			// whatever the script does (nested Value calls, replies, panics), the request keeps
+			// reporting what was sent
+			defer func() {
+				last := snapshot(m, r)
+				for _, x := range [][3]string{{"Query", first.Query, last.Query}, {"ResourceName", first.RName, last.RName}, {"CID", first.CID, last.CID},
+					{"Method", first.Method, last.Method}, {"Type", first.Type, last.Type}, {"Group", first.Group, last.Group},
+					{"PathParams", fmt.Sprint(first.PathParams), fmt.Sprint(last.PathParams)}, {"RawParams", string(first.RawParams), string(last.RawParams)},
+					{"RawToken", string(first.RawToken), string(last.RawToken)}} {
+					if x[1] != x[2] {
+						rs.record(i, Record{Marker: m, ForValue: true, Drift: fmt.Sprintf("%s was %q when the handler began and %q when it was done", x[0], x[1], x[2])})
+						break
+					}
+				}
+			}()
 			script.Exec(c.Reqs[i].Script, r, nil)
 		}
 		if hs.Access {
